@@ -291,6 +291,17 @@ op('dmrg_twosite', inplace=('psi',))((lambda c, L, ck, r: {'H': herm(c, max(L, 2
                                       lambda H, psi: ptn.calculate_ground_state_local_twosite(H, psi, 1, numiter_lanczos=4)))
 op('OpGraph_add', inplace=('graph',))((lambda c, L, ck, r: {'graph': small_graph(), 'other': OpGraph.from_opchains([OpChain([2, 2], [0, 0, 0], 1.0, 0)], 2, 0)},
                                        lambda graph, other: graph.add(other)))
+def _disjoint_other():
+    g = OpGraph.from_opchains([OpChain([2, 2], [0, 0, 0], 1.0, 0), OpChain([1, 2], [0, 0, 0], -0.5, 0)], 2, 0)
+    for nid in sorted(g.nodes, reverse=True):
+        g.rename_node_id(nid, nid + 100)
+    for eid in sorted(g.edges, reverse=True):
+        g.rename_edge_id(eid, eid + 200)
+    return g
+
+
+op('OpGraph_add_disjoint_ids', inplace=('graph',))((lambda c, L, ck, r: {'graph': small_graph(), 'other': _disjoint_other()},
+                                                    lambda graph, other: graph.add(other)))
 op('zero_qnumbers', inplace=('psi',))((lambda c, L, ck, r: _two(mk(c, L, ck, r), 'psi', 'phi'), lambda psi, phi: psi.zero_qnumbers()))
 
 
